@@ -13,7 +13,8 @@ import gen_toml as G
 PROP = "C02"
 COQ_PROPS = "Props/C02.v"
 COQ_PROPS_EXTRA = ["Props/C02tokens.v", "Props/C02doc.v", "Props/C02front.v", "Props/C02front2.v"]
-THEOREMS = ["see Props/C02.v and Props/C02tokens.v (token-level value lemmas)"]
+THEOREMS = ["C02_tree (Props/C02doc.v): for every accepted document and every valid derivation of its text the decoded tree is the tree the statements denote - keys, nesting, order, kinds, every scalar, exact decimals of floats, date-time fields; derivations agree",
+            "Props/C02tokens.v: the value half of every token lemma (strings with all escapes, integers in four bases, floats as exact decimals, booleans, date-times); Props/C02front.v / C02front2.v: the toml::Value / Table front ends decode to the same data (names in coverage.theorem_names)"]
 RULE = ("valid abstract documents rendered in every spelling + per-spelling value tables; non-trivial = document with "
         ">= 2 values or a value using a non-canonical spelling")
 ASSUMPTIONS = ["floats: the exact decimal is fixed by the model; the final rounding is compared against Python's correctly rounded float()"]
